@@ -44,12 +44,13 @@ Section Total.
   Hypothesis HndT : NoDup (keys T).
   Hypothesis HnoneT : has_none_key T = false.
   Hypothesis Hprun : prun < 0.
-  Hypothesis Htight : tight T.
 
-  (* an exact superrun chunk of positive duration whose rows fit, of one data type / kind / target *)
+  (* an exact superrun chunk of positive duration that covers (part of) some sub-run and whose rows fit, of
+     one data type / kind / target *)
   Definition goodc (dt k tgt : Z) (c : achunk) : Prop :=
     exactc T prun c /\ cstart (abase c) < cend (abase c) /\ base_ok (abase c) /\
-    cdtype (abase c) = dt /\ ckind (abase c) = k /\ ctarget (abase c) = tgt.
+    cdtype (abase c) = dt /\ ckind (abase c) = k /\ ctarget (abase c) = tgt /\
+    clip (cstart (abase c)) (cend (abase c)) T <> [].
 
   (* what stays in the input buffer after a fetch has been consumed *)
   Definition rest_of (dt k tgt e : Z) : achunk :=
@@ -58,15 +59,14 @@ Section Total.
   Lemma asplit_end_good dt k tgt c :
     goodc dt k tgt c -> asplit c (cend (abase c)) true = Ok (c, rest_of dt k tgt (cend (abase c))).
   Proof.
-    intros (Hc & Hlt & Hok & Hdt & Hk & Htg).
-    pose proof (promised_exact T prun HwT Hprun Htight c Hc) as Hp.
-    destruct Hc as (Hr & Hab & Hlo & Hhi & Hs & Hsup).
+    intros (Hc & Hlt & Hok & Hdt & Hk & Htg & Hne).
+    destruct Hc as (Hr & Hab & Hs & Hsup).
     pose proof (mk_chunk_range _ _ _ _ _ _ _ _ Hok) as Hrange.
     destruct c as [b sub sup]. destruct b as [a e rows dt0 k0 run0 tgt0].
     unfold base_ok in Hok.
     cbn [abase asub asuper cstart cend crows cdtype ckind crun ctarget] in *. subst.
     unfold asplit. cbn [abase asub asuper cstart cend crows cdtype ckind crun ctarget].
-    rewrite Z.min_id, Z.max_l by lia. rewrite Z.eqb_refl, Hp. cbn [res_bind].
+    rewrite Z.min_id, Z.max_l by lia. rewrite Z.eqb_refl.
     rewrite (split_runs_clip_any a e e T) by lia. unfold clamp. rewrite Z.min_id, (Z.max_r a e) by lia.
     rewrite (clip_empty_range e e T) by lia.
     rewrite (split_runs_single (Some prun) a e e) by lia. rewrite Z.min_id.
@@ -82,8 +82,8 @@ Section Total.
   Lemma do_compute_good dt k tgt lv c :
     goodc dt k tgt c -> do_compute prun lv c [] = Ok (relevel prun lv c).
   Proof.
-    intros (Hc & Hlt & Hok & Hdt & Hk & Htg).
-    destruct Hc as (Hr & Hab & Hlo & Hhi & Hs & Hsup).
+    intros (Hc & Hlt & Hok & Hdt & Hk & Htg & Hne).
+    destruct Hc as (Hr & Hab & Hs & Hsup).
     unfold do_compute, check_uniqueness. cbn [forallb negb map res_bind].
     unfold mk_achunk. cbn [set_subruns res_bind]. rewrite (base_ok_any _ Hok). cbn [res_bind].
     rewrite set_superrun_none. cbn [res_bind].
@@ -99,7 +99,7 @@ Section Total.
   Lemma relevel_good dt k tgt lv c :
     goodc dt k tgt c -> goodc (l_dtype lv) (l_kind lv) (l_target lv) (relevel prun lv c).
   Proof.
-    intros (Hc & Hlt & Hok & Hdt & Hk & Htg). destruct Hc as (Hr & Hab & Hlo & Hhi & Hs & Hsup).
+    intros (Hc & Hlt & Hok & Hdt & Hk & Htg & Hne). destruct Hc as (Hr & Hab & Hs & Hsup).
     unfold goodc, exactc, relevel, base_ok. cbn [abase asub asuper cstart cend crows cdtype ckind crun ctarget].
     repeat split; auto. apply (base_ok_any _ Hok).
   Qed.
@@ -109,8 +109,8 @@ Section Total.
     goodc dt k tgt c -> cstart (abase c) = e ->
     aconcatenate [Some (rest_of dt k tgt e); Some c] true = Ok c.
   Proof.
-    intros (Hc & Hlt & Hok & Hdt & Hk & Htg) He.
-    destruct Hc as (Hr & Hab & Hlo & Hhi & Hs & Hsup).
+    intros (Hc & Hlt & Hok & Hdt & Hk & Htg & Hne) He.
+    destruct Hc as (Hr & Hab & Hs & Hsup).
     pose proof (mk_chunk_range _ _ _ _ _ _ _ _ Hok) as Hrange.
     unfold aconcatenate. cbn [somes forallb abase rest_of cdtype].
     rewrite Hdt, !Z.eqb_refl. cbn [andb negb].
@@ -167,22 +167,37 @@ Section Total.
 End Total.
 
 (* ---------------------------------------------------------------------------------------------
-   the first superrun-capable level: its input is the chain of the sub-runs' loaders
+   the first superrun-capable level: its input is the chain of the sub-runs' loaders; between two
+   sub-runs there may be a gap, which the first chunk of the later sub-run absorbs
    --------------------------------------------------------------------------------------------- *)
 Record lc := mklc { lr : Z; la : Z; le : Z; lrows : list row }.
 
-Lemma split_runs_border r0 r a e : a < e ->
-  split_runs (Some ([mkspan r0 a a; mkspan r a e] : annot)) e = (Some [mkspan r a e], None).
+Lemma split_runs_border r0 r a s e : a <= s -> s < e ->
+  split_runs (Some ([mkspan r0 a a; mkspan r s e] : annot)) e = (Some [mkspan r s e], None).
 Proof.
-  intros H. unfold split_runs. cbn [flat_map app]. unfold split_span_first, split_span_second.
+  intros H1 H2. unfold split_runs. cbn [flat_map app]. unfold split_span_first, split_span_second.
   cbn [sstart send srun].
   destruct (e <=? a) eqn:E1; [lia|].
   destruct ((a <? e) && (e <? a)) eqn:E2; [lia|].
   destruct (a <=? e) eqn:E3; [|lia].
-  destruct ((a <? e) && (e <? e)) eqn:E4; [lia|].
+  destruct (e <=? s) eqn:E7; [lia|].
+  destruct ((s <? e) && (e <? e)) eqn:E4; [lia|].
   destruct (e <=? e) eqn:E5; [|lia].
   cbn [app pop_empty filter sstart send]. rewrite Z.eqb_refl.
-  destruct (a =? e) eqn:E6; [lia|]. reflexivity.
+  destruct (s =? e) eqn:E6; [lia|]. reflexivity.
+Qed.
+
+(* a chunk whose rows fit still fits when its start is moved back *)
+Lemma mk_chunk_widen s e rows c s' :
+  mk_chunk s e rows 0 0 None 0 = Ok c -> 0 <= s' -> s' <= s ->
+  mk_chunk s' e rows 0 0 None 0 = Ok (mkchunk s' e rows 0 0 None 0).
+Proof.
+  unfold mk_chunk. intros H H0 Hle.
+  destruct (s <? 0) eqn:E1; [discriminate|]. destruct (s >? e) eqn:E2; [discriminate|].
+  destruct (s' <? 0) eqn:E3; [lia|]. destruct (s' >? e) eqn:E4; [lia|].
+  destruct rows as [|r0 rows]; [reflexivity|].
+  destruct (rt r0 <? s) eqn:E5; [discriminate|]. destruct (rt r0 <? s') eqn:E6; [lia|].
+  destruct (max_end (lastn end_window (r0 :: rows)) >? e); [discriminate|]. reflexivity.
 Qed.
 
 Section FirstLevel.
@@ -191,59 +206,57 @@ Section FirstLevel.
   Variables dt k tgt : Z.          (* data type, kind and target of the level that is loaded *)
   Variable lv : level.             (* the first superrun-capable level *)
 
+  (* the input buffer [a,e) holding run r over [s,e): either an ordinary chunk of run r (then s = a), or --
+     right after a sub-run border -- a chunk without run id whose superrun annotation still lists the
+     (empty) rest of the previous run r0 *)
+  Definition fl_buffer (pre : option Z) (r a s e : Z) (rows : list row) : achunk :=
+    mkachunk (mkchunk a e rows dt k (match pre with None => Some r | Some _ => None end) tgt) None
+             (match pre with
+              | None => [mkspan (Some r) s e]
+              | Some r0 => [mkspan (Some r0) a a; mkspan (Some r) s e]
+              end).
+
   (* a chunk as the loader of an ordinary run yields it *)
-  Definition ord_chunk (r a e : Z) (rows : list row) : achunk :=
-    mkachunk (mkchunk a e rows dt k (Some r) tgt) None [mkspan (Some r) a e].
+  Definition ord_chunk (r a e : Z) (rows : list row) : achunk := fl_buffer None r a a e rows.
   Definition ord_of (x : lc) : achunk := ord_chunk (lr x) (la x) (le x) (lrows x).
 
-  (* the input buffer: either an ordinary chunk, or -- right after a sub-run border -- a chunk without
-     run id whose superrun annotation still lists the (empty) rest of the previous run *)
-  Definition fl_buffer (pre : option Z) (r a e : Z) (rows : list row) : achunk :=
-    match pre with
-    | None => ord_chunk r a e rows
-    | Some r0 => mkachunk (mkchunk a e rows dt k None tgt) None [mkspan (Some r0) a a; mkspan (Some r) a e]
-    end.
-
-  (* what the level yields: a chunk of the superrun recording the run it came from *)
-  Definition fl_out (r a e : Z) (rows : list row) : achunk :=
+  (* what the level yields: a chunk of the superrun [a,e) recording the run it came from over [s,e) *)
+  Definition fl_out (r a s e : Z) (rows : list row) : achunk :=
     mkachunk (mkchunk a e rows (l_dtype lv) (l_kind lv) (Some prun) (l_target lv))
-             (Some [mkspan (Some r) a e]) [mkspan (Some prun) a e].
-  Definition fl_out_of (x : lc) : achunk := fl_out (lr x) (la x) (le x) (lrows x).
+             (Some [mkspan (Some r) s e]) [mkspan (Some prun) a e].
 
   Definition lc_ok (x : lc) : Prop :=
     la x < le x /\ lr x <> prun /\
     exists c, mk_chunk (la x) (le x) (lrows x) 0 0 None 0 = Ok c.
 
-  Definition fl_inp (pre : option Z) (r a e : Z) (rows : list row) : achunk :=
+  Definition fl_inp (pre : option Z) (r a s e : Z) (rows : list row) : achunk :=
     mkachunk (mkchunk a e rows dt k (Some (match pre with None => r | Some r0 => r0 end)) tgt)
-             None [mkspan (Some r) a e].
+             None [mkspan (Some r) s e].
 
-  Lemma fl_split pre r a e rows c0 :
-    a < e -> mk_chunk a e rows 0 0 None 0 = Ok c0 ->
-    asplit (fl_buffer pre r a e rows) e true = Ok (fl_inp pre r a e rows, ord_chunk r e e []).
+  Lemma fl_split pre r a s e rows c0 :
+    a <= s -> s < e -> mk_chunk a e rows 0 0 None 0 = Ok c0 ->
+    asplit (fl_buffer pre r a s e rows) e true = Ok (fl_inp pre r a s e rows, ord_chunk r e e []).
   Proof.
-    intros Hlt Hmk. pose proof (mk_chunk_range _ _ _ _ _ _ _ _ Hmk) as Hrange.
+    intros Has Hlt Hmk. pose proof (mk_chunk_range _ _ _ _ _ _ _ _ Hmk) as Hrange.
     unfold asplit. destruct pre as [r0|]; cbn [fl_buffer ord_chunk abase asub asuper cstart cend crows cdtype ckind crun ctarget].
     - rewrite Z.min_id, Z.max_l by lia. rewrite Z.eqb_refl.
-      unfold promised_continuity, is_superrun. cbn [asub res_bind negb].
       rewrite split_runs_border by lia.
       cbn [split_runs fst snd one_or_none length Nat.eqb hd last srun]. rewrite (Z.max_r a e), Z.max_id by lia.
       unfold mk_achunk. cbn [set_subruns res_bind].
       rewrite (mk_chunk_any _ _ _ _ _ _ _ _ Hmk). cbn [res_bind]. rewrite set_superrun_single. cbn [res_bind].
       rewrite mk_chunk_empty by lia. cbn [res_bind]. rewrite set_superrun_none. reflexivity.
     - rewrite Z.min_id, Z.max_l by lia. rewrite Z.eqb_refl.
-      unfold promised_continuity, is_superrun. cbn [asub res_bind negb].
-      rewrite (split_runs_single (Some r) a e e) by lia. rewrite Z.min_id.
-      destruct (a <? e) eqn:E1; [|lia]. rewrite (Z.max_r a e) by lia. rewrite Z.ltb_irrefl.
-      cbn [split_runs fst snd one_or_none length Nat.eqb hd last srun]. rewrite Z.max_id.
+      rewrite (split_runs_single (Some r) s e e) by lia. rewrite Z.min_id.
+      destruct (s <? e) eqn:E1; [|lia]. rewrite (Z.max_r s e) by lia. rewrite Z.ltb_irrefl.
+      cbn [split_runs fst snd one_or_none length Nat.eqb hd last srun]. rewrite (Z.max_r a e), Z.max_id by lia.
       unfold mk_achunk. cbn [set_subruns res_bind].
       rewrite (mk_chunk_any _ _ _ _ _ _ _ _ Hmk). cbn [res_bind]. rewrite set_superrun_single. cbn [res_bind].
       rewrite mk_chunk_empty by lia. cbn [res_bind]. rewrite set_superrun_none. reflexivity.
   Qed.
 
-  Lemma fl_compute pre r a e rows c0 :
-    a < e -> r <> prun -> mk_chunk a e rows 0 0 None 0 = Ok c0 ->
-    do_compute prun lv (fl_inp pre r a e rows) [] = Ok (fl_out r a e rows).
+  Lemma fl_compute pre r a s e rows c0 :
+    s < e -> r <> prun -> mk_chunk a e rows 0 0 None 0 = Ok c0 ->
+    do_compute prun lv (fl_inp pre r a s e rows) [] = Ok (fl_out r a s e rows).
   Proof.
     intros Hlt Hr Hmk.
     unfold do_compute, check_uniqueness, fl_inp. cbn [forallb negb map res_bind abase asub asuper cstart cend crows].
@@ -256,17 +269,19 @@ Section FirstLevel.
   Qed.
 
   Lemma fl_concat r e x :
-    lc_ok x -> la x = e -> 0 <= e ->
+    lc_ok x -> e <= la x -> (r = lr x -> la x = e) -> 0 <= e ->
     aconcatenate [Some (ord_chunk r e e []); Some (ord_of x)] true
-    = Ok (fl_buffer (if r =? lr x then None else Some r) (lr x) e (le x) (lrows x)).
+    = Ok (fl_buffer (if r =? lr x then None else Some r) (lr x) e (la x) (le x) (lrows x)).
   Proof.
-    intros (Hlt & Hrx & c0 & Hmk) Hla He.
-    unfold aconcatenate, ord_of, ord_chunk. rewrite Hla in *.
+    intros (Hlt & Hrx & c0 & Hmk) Hla Hsame He.
+    pose proof (mk_chunk_widen _ _ _ _ e Hmk He Hla) as Hmk'.
+    unfold aconcatenate, ord_of, ord_chunk, fl_buffer.
     cbn [somes forallb abase cdtype]. rewrite !Z.eqb_refl. cbn [andb negb].
     unfold all_same_run. cbn [forallb abase crun opt_eqb]. rewrite Z.eqb_refl. cbn [andb].
     destruct (r =? lr x) eqn:E.
     - (* the next chunk belongs to the same run *)
       assert (r = lr x) by lia. subst r. rewrite Z.eqb_refl. cbn [andb negb res_bind].
+      rewrite (Hsame eq_refl) in *.
       unfold merge_subruns. cbn [fold_left asub merge_runs mergable_check res_bind none_if_empty].
       cbn [map abase order_ok cstart cend].
       destruct (e <? 0) eqn:E1; [lia|]. destruct (e <? e) eqn:E2; [lia|]. cbn [negb].
@@ -280,44 +295,58 @@ Section FirstLevel.
       cbn [add_run mergable_check]. unfold sort_pairs. cbn [fold_left ins_pair contiguous_pairs res_bind hd last fst snd].
       unfold merge_subruns. cbn [fold_left asub merge_runs mergable_check res_bind none_if_empty].
       cbn [map abase order_ok cstart cend].
-      destruct (e <? 0) eqn:E1; [lia|]. destruct (e <? e) eqn:E2; [lia|]. cbn [negb].
+      destruct (e <? 0) eqn:E1; [lia|]. destruct (la x <? e) eqn:E2; [lia|]. cbn [negb].
       cbn [last_end map abase flat_map crows app ckind ctarget fold_left cend cstart].
       rewrite app_nil_r, !Z.max_id.
-      unfold mk_achunk. cbn [set_subruns res_bind]. rewrite (mk_chunk_any _ _ _ _ _ _ _ _ Hmk). cbn [res_bind].
+      unfold mk_achunk. cbn [set_subruns res_bind]. rewrite (mk_chunk_any _ _ _ _ _ _ _ _ Hmk'). cbn [res_bind].
       unfold set_superrun. cbn [has_none_key existsb srun orb length Nat.eqb andb].
-      unfold sort_spans. cbn [fold_left ins_span sstart]. rewrite Z.ltb_irrefl.
-      cbn [overlapb send sstart orb]. destruct (e >? e) eqn:E3; [lia|]. reflexivity.
+      unfold sort_spans. cbn [fold_left ins_span sstart].
+      destruct (la x <? e) eqn:E4; [lia|].
+      cbn [overlapb send sstart orb]. destruct (e >? la x) eqn:E3; [lia|]. reflexivity.
   Qed.
 
-  Fixpoint lchain (e : Z) (l : list lc) : Prop :=
-    match l with [] => True | x :: r => la x = e /\ lchain (le x) r end.
+  (* the loaded chunks in order: never before the end of the previous one, and touching it inside a run *)
+  Fixpoint lorder (r e : Z) (l : list lc) : Prop :=
+    match l with
+    | [] => True
+    | x :: m => e <= la x /\ (r = lr x -> la x = e) /\ lorder (lr x) (le x) m
+    end.
 
-  Lemma fl_iter inputs : forall pre r a e rows c0,
-    a < e -> r <> prun -> mk_chunk a e rows 0 0 None 0 = Ok c0 ->
-    Forall lc_ok inputs -> lchain e inputs ->
-    iter_loop true prun lv (fl_buffer pre r a e rows) (map ord_of inputs)
-    = Ok (fl_out r a e rows :: map fl_out_of inputs).
+  (* what the level yields for them: chunk i begins where chunk i-1 ended *)
+  Fixpoint fl_outs (e : Z) (l : list lc) : list achunk :=
+    match l with
+    | [] => []
+    | x :: m => fl_out (lr x) e (la x) (le x) (lrows x) :: fl_outs (le x) m
+    end.
+
+  Lemma fl_iter inputs : forall pre r a s e rows c0,
+    a <= s -> s < e -> r <> prun -> mk_chunk a e rows 0 0 None 0 = Ok c0 ->
+    Forall lc_ok inputs -> lorder r e inputs ->
+    iter_loop true prun lv (fl_buffer pre r a s e rows) (map ord_of inputs)
+    = Ok (fl_out r a s e rows :: fl_outs e inputs).
   Proof.
-    induction inputs as [|x more IH]; intros pre r a e rows c0 Hlt Hr Hmk Hall Hch; cbn [map iter_loop].
-    - assert (He : cend (abase (fl_buffer pre r a e rows)) = e) by (destruct pre; reflexivity).
-      rewrite He, (fl_split pre r a e rows c0 Hlt Hmk). cbn [res_bind].
-      rewrite (fl_compute pre r a e rows c0 Hlt Hr Hmk). cbn [res_bind ord_chunk abase crows]. reflexivity.
-    - assert (He : cend (abase (fl_buffer pre r a e rows)) = e) by (destruct pre; reflexivity).
-      rewrite He, (fl_split pre r a e rows c0 Hlt Hmk). cbn [res_bind].
-      rewrite (fl_compute pre r a e rows c0 Hlt Hr Hmk). cbn [res_bind].
-      inversion Hall as [|? ? Hx Hmore]; subst. cbn [lchain] in Hch. destruct Hch as [Hla Hch].
+    induction inputs as [|x more IH]; intros pre r a s e rows c0 Has Hlt Hr Hmk Hall Hch; cbn [map iter_loop fl_outs].
+    - assert (He : cend (abase (fl_buffer pre r a s e rows)) = e) by reflexivity.
+      rewrite He, (fl_split pre r a s e rows c0 Has Hlt Hmk). cbn [res_bind].
+      rewrite (fl_compute pre r a s e rows c0 Hlt Hr Hmk). cbn [res_bind ord_chunk fl_buffer abase crows]. reflexivity.
+    - assert (He : cend (abase (fl_buffer pre r a s e rows)) = e) by reflexivity.
+      rewrite He, (fl_split pre r a s e rows c0 Has Hlt Hmk). cbn [res_bind].
+      rewrite (fl_compute pre r a s e rows c0 Hlt Hr Hmk). cbn [res_bind].
+      inversion Hall as [|? ? Hx Hmore]; subst. cbn [lorder] in Hch. destruct Hch as (Hla & Hsame & Hch).
       pose proof (mk_chunk_range _ _ _ _ _ _ _ _ Hmk) as Hrange.
-      rewrite (fl_concat r e x Hx Hla) by lia. cbn [res_bind].
-      destruct Hx as (Hlt' & Hr' & c1 & Hmk'). rewrite Hla in Hmk'.
-      rewrite (IH _ (lr x) e (le x) (lrows x) c1); try assumption; try lia.
-      cbn [res_bind]. unfold fl_out_of. rewrite Hla. reflexivity.
+      rewrite (fl_concat r e x Hx Hla Hsame) by lia. cbn [res_bind].
+      destruct Hx as (Hlt' & Hr' & c1 & Hmk').
+      pose proof (mk_chunk_widen _ _ _ _ e Hmk' ltac:(lia) Hla) as Hmk''.
+      rewrite (IH _ (lr x) e (la x) (le x) (lrows x) _ Hla Hlt' Hr' Hmk'' Hmore Hch).
+      cbn [res_bind]. reflexivity.
   Qed.
 
   Lemma fl_plugin_iter x inputs :
-    lc_ok x -> Forall lc_ok inputs -> lchain (le x) inputs ->
-    plugin_iter true prun lv (map ord_of (x :: inputs)) = Ok (map fl_out_of (x :: inputs)).
+    lc_ok x -> Forall lc_ok inputs -> lorder (lr x) (le x) inputs ->
+    plugin_iter true prun lv (map ord_of (x :: inputs))
+    = Ok (fl_out (lr x) (la x) (la x) (le x) (lrows x) :: fl_outs (le x) inputs).
   Proof.
     intros (Hlt & Hr & c0 & Hmk) Hall Hch. cbn [map plugin_iter].
-    apply (fl_iter inputs None (lr x) (la x) (le x) (lrows x) c0); auto.
+    apply (fl_iter inputs None (lr x) (la x) (la x) (le x) (lrows x) c0); auto. lia.
   Qed.
 End FirstLevel.
